@@ -2,13 +2,13 @@ SPECIFICATION SpecMC
 CONSTANTS
   MaxDev = 1
   Depth = 2
-  EditOps = {"AddParagraph", "AddHeading", "AddImage", "AddHeader", "AddFooter", "AddListItem", "AddFootnote", "AddEndnote", "SetFootnoteConfig", "SetTitle", "AddTable", "RemoveParagraphAt", "Save", "Reopen", "Render"}
-  Dims = {"base", "extra", "scheme", "ext", "media", "ns", "pkgns", "tgstyle", "pkgids", "cont", "blk", "xrel", "mix", "mixin", "sty", "sdef", "sref"}
+  EditOps = {"AddParagraph", "AddHeading", "AddImage", "AddHeader", "AddFooter", "AddListItem", "AddFootnote", "AddEndnote", "SetFootnoteConfig", "SetTitle", "GetDocumentProperties", "AddTable", "RemoveParagraphAt", "Save", "Reopen", "Render"}
+  Dims = {"base", "extra", "scheme", "ext", "media", "ns", "pkgns", "tgstyle", "pkgids", "cont", "blk", "xrel", "mix", "mixin", "sty", "sdef", "sref", "bytes", "zip", "place"}
   ImgFmts = {"png"}
   ImgNames = {"ext"}
   IdPool = {"rId1", "rId3", "rId40"}
   NamePool = {"image0.png", "image2.png"}
-  SlimDims = {"xrel", "mix", "mixin", "sty", "sdef", "sref"}
+  SlimDims = {"xrel", "mix", "mixin", "sty", "sdef", "sref", "bytes", "zip"}
   SlimOps = {"AddHeading", "AddImage", "AddFootnote", "RemoveParagraphAt", "Reopen"}
   DimGroups = {}
 INVARIANTS Inv_All Inv_DetectParts Inv_DetectRels Inv_ShapeWellFormed
